@@ -305,6 +305,8 @@ def run(ctx):
 
     bad_idx = common.run_cases(ctx, 'ops', IMPORTS, '', exprs, shard=120)
     tie_broken = []
+    import tie_prims
+    tie_broken += tie_prims.tie(ctx)
     if bad_idx is None:
         tie_broken.append('cases.v (structural/arithmetic model vs implementation) did not evaluate')
     elif bad_idx:
